@@ -12,27 +12,18 @@
    The link "the implementation's output is a table entry" is established per run (the
    driver checks membership and, independently, executes every returned witness), and the
    model of the satisfier (Ms/Sat.v) is compared with the implementation on every run.
-   The hypotheses Hnum* are arithmetic facts about script-number encoding. *)
+   The script-number facts used (minimal encoding round-trips) are proved in ScriptNumProofs.v. *)
 From Verif Require Import Exec Ser Ast Types TypeCheck SatSpec ExecLemmas TheoremA.
 
-Definition num_facts : Prop :=
-  (forall z, (0 <= z < 2147483648)%Z -> num_operand 4 (num_encode z) = Some z) /\
-  (forall z, (0 <= z < 2147483648)%Z -> num_operand 5 (num_encode z) = Some z) /\
-  (forall z, (0 < z < 2147483648)%Z -> truthy (num_encode z) = true) /\
-  (forall v z, num_operand 4 v = Some z -> truthy v = negb (z =? 0)%Z).
-
 Theorem C01_table_sound_partial :
-  forall (e : env) (ke : keyenv) (A : assets), num_facts -> assets_ok e ke A ->
+  forall (e : env) (ke : keyenv) (A : assets), assets_ok e ke A ->
   forall (m : ms) (t : ty), type_of m = ROk t -> wf e ke m -> no_multi m ->
     good e ke A m t /\ shape ke A m t.
-Proof.
-  exact (fun e ke A H HA m t => theoremA e ke A (proj1 H) (proj1 (proj2 H)) (proj1 (proj2 (proj2 H)))
-                                         (proj2 (proj2 (proj2 H))) HA m t).
-Qed.
+Proof. exact theoremA_closed. Qed.
 Print Assumptions C01_table_sound_partial.
 
 Theorem C01_witness_script_accepts_partial :
-  forall (e : env) (ke : keyenv) (A : assets), num_facts -> assets_ok e ke A ->
+  forall (e : env) (ke : keyenv) (A : assets), assets_ok e ke A ->
   forall (m : ms) (t : ty), type_of m = ROk t -> c_base (t_corr t) = BB -> wf e ke m -> no_multi m ->
   forall w, In w (all_sat ke A m) -> accepts e (enc ke m) w = true.
 Proof. exact witness_script_accepts. Qed.
